@@ -119,6 +119,12 @@ func C02(r *ev.Run) {
 		jobs = append(jobs, &MCJob{Name: "Cascade/selftest/" + v, Files: map[string]string{"MCCascade.tla": mod, "MCCascade.cfg": cfg},
 			Opt: tlc.Options{Module: "MCCascade", Config: "MCCascade.cfg", Timeout: 10 * time.Minute}})
 	}
+	{ // the caller which registers for the end too late never returns: refuted by the liveness property
+		sh := cascadeShapes(tier)[0]
+		mod, cfg := sh.render(false, 1, "observer-late", true)
+		jobs = append(jobs, &MCJob{Name: "Cascade/selftest/observer-late", Files: map[string]string{"MCCascade.tla": mod, "MCCascade.cfg": cfg},
+			Opt: tlc.Options{Module: "MCCascade", Config: "MCCascade.cfg", Timeout: 10 * time.Minute}})
+	}
 	if !runMCParallel(r, jobs, 8) {
 		return
 	}
@@ -128,7 +134,7 @@ func C02(r *ev.Run) {
 				r.Inconclusive(fmt.Sprintf("Cascade model %s refuted by TLC: %s\n%s", j.Name, j.Res.Describe(), j.Res.Tail(40)))
 				return
 			}
-		} else if j.Res.Violated == "" {
+		} else if j.Res.Violated == "" && !(strings.HasSuffix(j.Name, "observer-late") && !j.Res.OK) {
 			r.Inconclusive(fmt.Sprintf("self-test: TLC did not refute %s: %s", j.Name, j.Res.Describe()))
 			return
 		}
